@@ -49,12 +49,19 @@ type Ent struct {
 }
 
 type Op struct {
-	Op     string `json:"op"`             // read prefetch evict evictall
-	File   int    `json:"file,omitempty"` // index into the sorted list of regular files (modulo its length)
-	Off    int64  `json:"off,omitempty"`
-	Len    int64  `json:"len,omitempty"`
-	Pick   []int  `json:"pick,omitempty"` // evict: indexes into the list of all chunk keys (modulo its length)
-	Reopen bool   `json:"reopen,omitempty"`
+	Op     string    `json:"op"`             // read prefetch evict evictall par
+	File   int       `json:"file,omitempty"` // index into the sorted list of regular files (modulo its length)
+	Off    int64     `json:"off,omitempty"`
+	Len    int64     `json:"len,omitempty"`
+	Pick   []int     `json:"pick,omitempty"` // evict: indexes into the list of all chunk keys (modulo its length)
+	Reopen bool      `json:"reopen,omitempty"`
+	Par    []ParRead `json:"par,omitempty"` // par: reads issued concurrently
+}
+
+type ParRead struct {
+	File int   `json:"file"`
+	Off  int64 `json:"off"`
+	Len  int64 `json:"len"`
 }
 
 type AttrIn struct {
@@ -345,6 +352,16 @@ func walk(mr metadata.Reader, problems *[]string) []ONode {
 			*problems = append(*problems, "ForeachChild failed at "+dir)
 		}
 		sort.Slice(chs, func(i, j int) bool { return chs[i].name < chs[j].name })
+		// a name that is not listed is not found
+		for _, miss := range []string{"no-such-name", ".", "..", ""} {
+			listed := false
+			for _, c := range chs {
+				listed = listed || c.name == miss
+			}
+			if _, _, err := mr.GetChild(id, miss); err == nil && !listed {
+				*problems = append(*problems, fmt.Sprintf("lookup of %q in %q succeeds but the listing does not contain it", miss, dir))
+			}
+		}
 		for _, c := range chs {
 			p := c.name
 			if dir != "" {
@@ -408,6 +425,7 @@ type readOut struct {
 	err    bool
 	pnc    bool
 	trace  []string // Coq events
+	par    bool     // issued concurrently with other reads: oracle only
 }
 
 type serveObs struct {
@@ -416,6 +434,7 @@ type serveObs struct {
 	files      []fileInfo
 	coqOps     []string
 	outs       []readOut
+	par        []readOut
 	problems   []string
 	stats      map[string]int
 }
@@ -623,6 +642,43 @@ func execServe(c Case, tmpRoot string) (obs serveObs) {
 				}
 			}
 			obs.stats["op."+o.Op]++
+		case "par":
+			// concurrent readers (searched by the oracle only; the cache state afterwards is not predicted, so this op
+			// is used with the directory caches, whose answers are replayed from observation)
+			if len(obs.files) == 0 || c.Cache == "mem" {
+				continue
+			}
+			var wg sync.WaitGroup
+			res := make([]readOut, len(o.Par))
+			for i, pr := range o.Par {
+				f := pr.File % len(obs.files)
+				res[i] = readOut{isRead: true, f: f, off: pr.Off, n: pr.Len, par: true}
+				wg.Add(1)
+				go func(i int, pr ParRead, id uint32) {
+					defer wg.Done()
+					defer func() {
+						if r := recover(); r != nil {
+							res[i].pnc = true
+						}
+					}()
+					h, err := gr.OpenFile(id)
+					if err != nil {
+						res[i].err = true
+						return
+					}
+					p := make([]byte, pr.Len)
+					n, err := h.ReadAt(p, pr.Off)
+					if err != nil && err != io.EOF {
+						res[i].err = true
+						return
+					}
+					res[i].data = p[:n]
+				}(i, pr, obs.files[f].id)
+			}
+			wg.Wait()
+			obs.par = append(obs.par, res...)
+			obs.stats["op.par"]++
+			obs.stats["read.concurrent"] += len(o.Par)
 		case "read":
 			if len(obs.files) == 0 {
 				continue
